@@ -316,7 +316,9 @@ def run_pack(prop, cases, grounds=(), bounded=(), *, tier="quick", seed=0, assum
         "violations": n_viol,
     }
     os.makedirs(os.path.join(VERIF, "evidence"), exist_ok=True)
-    json.dump(evidence, open(os.path.join(VERIF, "evidence", f"{prop}.json"), "w"), indent=1, default=str)
+    ev_dir = os.environ.get("VERIF_EVIDENCE_DIR") or os.path.join(VERIF, "evidence")  # seeded/mutation runs write elsewhere
+    os.makedirs(ev_dir, exist_ok=True)
+    json.dump(evidence, open(os.path.join(ev_dir, f"{prop}.json"), "w"), indent=1, default=str)
 
     # ---- verdict
     print(f"[{prop}] tier={tier} units={len(unit_table)} cases={len(_CASES)} paths={paths} obligations={len(prove)} discharged={len(discharged)} refuted={len(refuted)} (known: {len(known_hits)}) unknown={len(unknown)} covers={len(covers)} vacuous={len(vacuous)} wall={wall:.1f}s")
